@@ -1,11 +1,11 @@
 CONSTANTS
   NG = 2
   Sizes = {1, 2}
-  ResKinds = {"ok", "exc", "none"}
+  ResKinds = {"ok", "exc"}
   Copies = 1
   FitsCov = {1, 1000001}
   FitsMio = {1}
-  FitsPop = {0, 1, 2, 1000001}
+  FitsPop = {1}
   MaxLenCov = 1
   MaxLenMio = 1
   Cap0 = 2
